@@ -211,6 +211,8 @@ func TestTassaAdmissionBoundary(t *testing.T) {
 
 // ---- TestRefused (f) ---------------------------------------------------------------------------------------
 
+func c0(ids []uint64) sharing.ID { return sharing.ID(ids[0]) }
+
 func idSet(ids ...uint64) ds.Set[sharing.ID] {
 	l := make([]sharing.ID, len(ids))
 	for i, v := range ids {
@@ -226,7 +228,7 @@ func TestRefused(t *testing.T) {
 		"unanimity.<2", "unanimity.id0", "unanimity.nil",
 		"cnf.none", "cnf.emptyset", "cnf.id0", "cnf.nilset", "cnf.oneholder",
 		"hier.nolevels", "hier.id0", "hier.notincreasing", "hier.t>members", "hier.overlap", "hier.nillevel", "hier.idorder",
-		"gate.t<=0", "gate.t>children", "gate.id0", "gate.duplicate", "gate.nil",
+		"gate.t<=0", "gate.t>children", "gate.id0", "gate.duplicate", "gate.nil", "gate.nilchild",
 		"onecolumn.gate", "onecolumn.hier",
 	}
 	vlib.Check(t, 1200, func(t *rapid.T) {
@@ -391,8 +393,24 @@ func TestRefused(t *testing.T) {
 			})
 		case "gate.nil":
 			refuse("nil tree", func() error { _, e := boolexpr.NewThresholdGateAccessStructure(nil); return e })
-		// (a nil CHILD makes checkTree dereference nil and panic; nil inputs are outside the
-		// property, reported to the lead as an observation and not generated here)
+		case "gate.nilchild":
+			// fixed finding (2bb14a2): a nil child at any position, also nested, is an error
+			kids := leaves(ids)
+			pos := rapid.IntRange(0, len(kids)).Draw(t, "pos")
+			withNil := append(append(append([]*boolexpr.Node{}, kids[:pos]...), nil), kids[pos:]...)
+			tt := rapid.IntRange(1, len(withNil)).Draw(t, "t")
+			refuse("gate with a nil child", func() error {
+				_, e := boolexpr.NewThresholdGateAccessStructure(boolexpr.Threshold(tt, withNil...))
+				return e
+			})
+			refuse("nested gate with a nil child", func() error {
+				_, e := boolexpr.NewThresholdGateAccessStructure(boolexpr.And(boolexpr.ID(c0(ids)), boolexpr.Threshold(tt, withNil...)))
+				return e
+			})
+			refuse("gate whose only child is nil", func() error {
+				_, e := boolexpr.NewThresholdGateAccessStructure(boolexpr.Threshold(1, nil))
+				return e
+			})
 		case "onecolumn.gate", "onecolumn.hier":
 			// every single party qualified: OR over all holders (possibly nested ORs) / (1; all)
 			var p *policy.Policy
